@@ -15,6 +15,8 @@ package neutrino
 
 import (
 	"container/list"
+
+	"github.com/btcsuite/btcd/chainhash/v2"
 	"math/big"
 	"sort"
 	"time"
@@ -608,4 +610,81 @@ func VerifH_C01_twoMessages() {
 	}
 	s.oneMessage("m2:", vpMsgOpt{maxNew: vpParam("maxnew2", 2), kinds: vpParam("kinds2", 0), symTs: vpParam("symts2", 1) == 1,
 		knownPrefix: vpParam("knownprefix2", 0) == 1})
+}
+
+// invMessage: an inventory message announcing one block (the tip, the
+// stored block below it, a block an earlier message offered, or an unknown
+// one followed by a transaction entry) or only a transaction, from either peer.  Inventory
+// never changes what the client reports: the whole store and the in-memory
+// validation tail must be exactly as before, and lookups still agree.
+func (s *vpHdrScn) invMessage(tag string) {
+	e := s.e
+	S := append([]wire.BlockHeader(nil), e.bs.hdrs...)
+	tip := len(S) - 1
+	inv := wire.NewMsgInv()
+	var hash chainhash.Hash
+	kind := vpRange(tag+"invKind", 0, 4)
+	switch kind {
+	case 0:
+		hash = S[tip].BlockHash()
+	case 1:
+		hash = S[tip-1].BlockHash() // tip >= 1 in every start state
+	case 2:
+		if len(s.offered) > 0 {
+			hash = s.offered[len(s.offered)-1].BlockHash()
+		} else {
+			x := wire.BlockHeader{Version: 7, Bits: vpPowLimitBits, Timestamp: time.Unix(vpTimeBase+78, 0)}
+			hash = x.BlockHash()
+		}
+	default:
+		// a block nobody has seen
+		x := wire.BlockHeader{Version: 8, Bits: vpPowLimitBits, Timestamp: time.Unix(vpTimeBase+79, 0)}
+		hash = x.BlockHash()
+	}
+	if kind == 4 {
+		// a transaction announcement only
+		_ = inv.AddInvVect(wire.NewInvVect(wire.InvTypeTx, &chainhash.Hash{0x33}))
+	} else {
+		_ = inv.AddInvVect(wire.NewInvVect(wire.InvTypeBlock, &hash))
+		if kind == 3 {
+			_ = inv.AddInvVect(wire.NewInvVect(wire.InvTypeTx, &chainhash.Hash{0x33}))
+		}
+	}
+	back := e.bm.headerList.Back()
+	sender := s.peers[vpRange(tag+"invSender", 0, 1)]
+	e.bm.handleInvMsg(&invMsg{inv: inv, peer: sender})
+	vpQuiesce()
+	vpReach("inventory-handled")
+	if vpPeerSentOrZero(sender, "PushGetHeadersMsg") > 0 {
+		vpNote("inventory-triggered-getheaders") // observable on the engine's peer recorder only
+	}
+	vpAssert(vpSameChain(e.bs.hdrs, S), tag+"inventory-changes-no-stored-header")
+	vpAssert(e.bm.headerList.Back() == back, tag+"inventory-leaves-the-validation-tail-alone")
+	s.checkStore(tag + "inv:")
+	s.checkLookups(tag + "inv:")
+}
+
+func vpPeerSentOrZero(sp *ServerPeer, what string) int {
+	if vpSymbolic() {
+		return vpPeerSent(sp.Peer, what)
+	}
+	return 0
+}
+
+// VerifH_C01_invHistory: headers and inventory messages interleaved: an
+// inventory message, a headers message near the tip, another inventory
+// message, then any headers message.
+func VerifH_C01_invHistory() {
+	s := vpNewHdrScn(vpParam("maxcps2", 1), vpParam("recent2", 1) == 1)
+	if s == nil {
+		return
+	}
+	s.invMessage("i1:")
+	if !s.oneMessage("m1:", vpMsgOpt{maxNew: vpParam("maxnew2", 2), kinds: 0, nearTip: true}) {
+		return
+	}
+	s.invMessage("i2:")
+	if vpParam("second", 1) == 1 {
+		s.oneMessage("m2:", vpMsgOpt{maxNew: vpParam("maxnew2", 2), kinds: 0, symTs: false, knownPrefix: false})
+	}
 }
